@@ -1399,8 +1399,9 @@ class C14Run(OnionRun):
         c['ports'] = []
         for k in range(nports):
             form = PORT_FORMS[ch.weighted([3, 3, 3, 1, 1, 1], 'pform')]
-            virt = [80, 443, 8080][k] + idx
-            local = 9000 + 10 * idx + k
+            # mostly ordinary ports, sometimes the ends of the legal range (distinct per position)
+            virt = [[80 + idx, 1, 65535], [443 + idx, 2, 65534], [8080 + idx, 1024, 49152]][k][ch.weighted([4, 1, 1], 'virt')]
+            local = [9000 + 10 * idx + k, 65535 - k, 1 + k][ch.weighted([4, 1, 1], 'local')]
             c['ports'].append((form, virt, local))
         c['crlf'] = ch.pick(['\n', '\r\n', '\r'], 'crlf') if c['keyform'] == 'crlf' else None
         c['crlf_prefixed'] = ch.chance(1, 2, 'crlfp') if c['keyform'] == 'crlf' else False
@@ -1617,6 +1618,21 @@ class C14Run(OnionRun):
         sid = entry['sid']
         self.observe(c, svc, sid, what, 'when create() fired')
         # ---- removal
+        if ch.chance(1, 4, 'delfail'):
+            # fault: Tor refuses the first DEL_ONION; remove() must report that, and a retry must ask Tor again
+            sim.fault('del-onion-refused-once')
+            tor.fail_next['DEL_ONION'] = err(551, 'Internal error')
+            fw = Watch(self, 'remove()#%d (refused)' % c['idx'])
+            recv1 = len(tor.received)
+            self.expected_del += 1
+            fw.attach(svc.remove())
+            self.run_until(lambda: fw.fired, 200)
+            dels = [l for l in tor.received[recv1:] if l.split(' ', 1)[0].upper() == 'DEL_ONION']
+            if dels != ['DEL_ONION ' + sid]:
+                self.fail('C14.del-onion-differs', '%s: remove() sent %r, expected one DEL_ONION %s' % (what, dels, sid))
+            if not fw.fired or fw.ok:
+                self.fail('C14.remove-succeeded-after-rejection', '%s: Tor answered 551 to DEL_ONION, remove() %s' % (
+                    what, 'is pending' if not fw.fired else 'succeeded'))
         rw = Watch(self, 'remove()#%d' % c['idx'])
         sim.log('op', 'remove', c['idx'])
         recv1 = len(tor.received)
